@@ -474,6 +474,16 @@ pub fn structural_mutants(rec: &Rec, r: &mut impl RngCore) -> Vec<(&'static str,
         let mut p = rlp::enc_list_payload(&rlp::enc_str(&sg));
         p.extend_from_slice(&body);
         out.push(("signature-as-list", rlp::enc_list_payload(&p)));
+        // a one-byte key below 0x80 written with a length prefix (81 xx)
+        {
+            let mut r2 = rec.clone();
+            r2.map.insert(b"a".to_vec(), Item::S(vec![1]));
+            let it2 = r2.items();
+            let pos = it2.iter().position(|x| *x == Item::S(b"a".to_vec())).unwrap();
+            let mut v = it2.clone();
+            v[pos] = Item::R(vec![0x81, b'a']);
+            both!("noncanonical-length", v, it2);
+        }
         // key as list / key non-canonical
         let i = below(r, npairs as u64) as usize;
         if let Item::S(kb) = &items[pair(i).0] {
